@@ -138,9 +138,11 @@ pub fn gen_case(r: &mut Rng) -> LedgerCase {
                 rand_amount(r, 100, 4)
             };
             bal[ai] += sh;
+            // now and then shares acquired for nothing (a spin-off, a stock dividend)
+            let buy_price = if r.chance(4) { Decimal::ZERO } else { price };
             TxActionSpecifics::Buy(BuyTxSpecifics {
                 shares: pos(sh),
-                amount_per_share: gez(price),
+                amount_per_share: gez(buy_price),
                 commission: gez(comm),
                 tx_currency_and_rate: cer(&cur, rate),
                 separate_commission_currency: match (&ccur, crate_) {
@@ -151,7 +153,9 @@ pub fn gen_case(r: &mut Rng) -> LedgerCase {
         } else if roll < 78 {
             // Sell: mostly within holdings
             let have = bal[ai];
-            let sh = if have.is_zero() || offend {
+            let sh = if offend && !have.is_zero() && r.chance(40) {
+                have + Decimal::new(r.range(1, 9), 7) // an over-sale by less than a millionth of a share
+            } else if have.is_zero() || offend {
                 rand_amount(r, 50, 2) // likely oversell
             } else if r.chance(30) {
                 have
